@@ -488,6 +488,17 @@ def run(ctx):
     r5(ctx)
 
 
+def _rule_1(ctx):
+    return (lambda ctx: r2_holdout(ctx, "retrospective.create_plate_balanced_holdout_set_among_masked_plates", True))(ctx)
+
+
+def _rule_2(ctx):
+    return (lambda ctx: r2_holdout(ctx, "retrospective.create_random_holdout", False))(ctx)
+
+
+RULE_FUNCS = [r1, _rule_1, _rule_2, r3, r4, r5]
+
+
 def _rep(a, b, count=1):
     def edit(t):
         if a not in t:
